@@ -1,6 +1,7 @@
 package types
 
 import (
+	clienttypes "github.com/teleport-network/teleport/x/xibc/core/client/types"
 	"github.com/teleport-network/teleport/x/xibc/exported"
 
 	sdk "github.com/cosmos/cosmos-sdk/types"
@@ -14,7 +15,9 @@ func (h Header) ClientType() string {
 }
 
 func (h Header) GetHeight() exported.Height {
-	return nil
+	// a TSS client has no heights; return the zero height (as ClientState.GetLatestHeight
+	// does) rather than a nil interface, which the client keeper dereferences on update
+	return clienttypes.Height{}
 }
 
 func (h Header) ValidateBasic() error {
